@@ -29,7 +29,16 @@
                            end_transaction, so transactions whose own commit block failed are replayed
      DevCommitBreakContinues the two `break` statements that give up on a failed commit block only leave the switch:
                            the scan goes on with the next log block and the same expected ID; when that block belongs
-                           to the same transaction again (a transaction filling the whole ring) PASS_SCAN never ends *)
+                           to the same transaction again (a transaction filling the whole ring) PASS_SCAN never ends
+     DevTidZeroUnset       info->end_transaction = 0 doubles as "the end of the log is not known yet": when the transaction
+                           whose commit block fails its checksum has the tid 0 (the tids wrapped), `end_transaction =
+                           next_commit_ID' leaves the end unknown; with ASYNC_COMMIT the scan goes on and that transaction
+                           (and those behind it) are replayed.  A DEFINITION (default TRUE), not a constant: Jbd2 is
+                           instantiated by Trace_JournalRun (C04) with an explicit constant list; the property-conforming
+                           model overrides it in the cfg (DevTidZeroUnset <- PropertyConforming).
+
+   Transaction identifiers are 32-bit and wrap: see the section "transaction identifiers" below (offsets from a
+   per-journal base, comparison = sign of the difference modulo 2^32). *)
 EXTENDS Naturals, Integers, Sequences, FiniteSets, TLC
 
 CONSTANTS L,            \* ring length (log positions 1..L)
@@ -41,11 +50,11 @@ CONSTANTS L,            \* ring length (log positions 1..L)
           OldTime,      \* 0 / 1: generator may give a transaction a commit time older than its predecessor
           DevReplayPastBadTag, DevScanAbort, DevAsyncLastBadCommit, DevCommitBreakContinues
 
-VARIABLES jc,       \* configuration the recovery code reads from the journal superblock: [L, csum, async] (= CC in the generator)
+VARIABLES jc,       \* configuration the recovery code reads from the journal superblock: [L, csum, async, tb] (= CC in the generator)
           log,      \* [1..L -> block record]
           head,     \* next log position the writer will use
           nseq,     \* next transaction sequence number
-          jsb,      \* [start |-> 0..L, seq |-> Nat]      start = 0: journal empty
+          jsb,      \* [start |-> 0..L, seq |-> tid offset]      start = 0: journal empty
           nr,       \* needs_recovery flag of the filesystem superblock (0/1)
           fs,       \* [Blocks -> version]   (0 = original content)
           hist,     \* ground truth: transactions appended since the tail
@@ -69,17 +78,49 @@ WrapL(LL, p) == IF p > LL THEN p - LL ELSE p
 AdvL(LL, p, n) == ((p - 1 + n) % LL) + 1
 
 \* ------------------------------------------------------------------------------------------------
-\* (2) the property, from the generator's history
+\* transaction identifiers.  tid_t is an unsigned 32-bit integer that wraps around (next_commit_ID++ goes from
+\* 0xffffffff to 0).  Two tids are ORDERED BY THE SIGN OF THEIR DIFFERENCE MODULO 2^32 (kernel-jbd.h tid_gt / tid_geq:
+\* `int difference = (x - y); return difference > 0' / `>= 0'); equality is equality of the 32-bit values.
+\* TLC integers are 32-bit, so a tid is written as a small integer OFFSET (|offset| < 2^30) from a per-journal base
+\* C.tb = [hi, lo] (two 16-bit halves): the tid on disk is (tb + offset) mod 2^32 = Conc(C, offset).  Every record of the
+\* log, the journal superblock and the history carry offsets; the base is part of the concretisation (gen/jbd2write.py
+\* adds it, what is read back from an image is compared with Conc).  The generator numbers consecutive transactions
+\* with consecutive offsets whatever the base, so the log runs over 0xffffffff -> 0 (and over 0x7fffffff -> 0x80000000,
+\* where comparing the values themselves as signed integers breaks) wherever the base puts that boundary.
+\* A configuration record without the field tb has base 0: offsets are the tids themselves.
+H16 == 65536
+Zero32 == [hi |-> 0, lo |-> 0]
+TbOf(C) == IF "tb" \in DOMAIN C THEN [hi |-> C.tb.hi, lo |-> C.tb.lo] ELSE Zero32
+Of32(x) == [hi |-> (x \div H16) % H16, lo |-> x % H16]                       \* x mod 2^32 (\div rounds down, % is non-negative)
+Add32(a, x) == LET s == a.lo + x IN [hi |-> (a.hi + (s \div H16)) % H16, lo |-> s % H16]      \* (a + x) mod 2^32
+Sub32(a, b) == LET d == a.lo - b.lo IN [hi |-> (a.hi - b.hi + (d \div H16)) % H16, lo |-> d % H16]   \* (a - b) mod 2^32
+Sgn32(d) == IF d.hi >= 32768 THEN -1 ELSE IF d = Zero32 THEN 0 ELSE 1        \* sign of (int) d
+Conc(C, x) == Add32(TbOf(C), x)
+TidCmp(C, x, y) == Sgn32(Sub32(Conc(C, x), Conc(C, y)))
+TidGt(C, x, y)  == TidCmp(C, x, y) > 0                                      \* tid_gt(x, y)
+TidGeq(C, x, y) == TidCmp(C, x, y) >= 0                                     \* tid_geq(x, y)
+TidEq(C, x, y)  == Conc(C, x) = Conc(C, y)
+TidIsZero(C, x) == Conc(C, x) = Zero32
+\* boundary catalogue of the base: the unsigned wrap (tid 0) or the signed boundary (tid 0x80000000) lands on offset z;
+\* a small base b.  The universe places z on every transaction of the log and of its next life (Jbd2Gen: TidBases).
+BaseWrapU(z)  == Sub32(Zero32, Of32(z))
+BaseWrapS(z)  == Sub32([hi |-> 32768, lo |-> 0], Of32(z))
+BaseSmall(b)  == Of32(b)
+PropertyConforming == FALSE
+DevTidZeroUnset == TRUE           \* see the head of the module; overridden with PropertyConforming in the property-conforming cfg
+
+\* ------------------------------------------------------------------------------------------------
+\* (2) the property, from the generator's history.  "That or a later committed transaction" is the order of the history
+\* (position in the valid prefix), not a comparison of identifiers.
 ValidPrefix(h) == LET bad == {k \in 1..Len(h) : h[k].valid = 0}
                   IN IF bad = {} THEN h ELSE SubSeq(h, 1, Min(bad) - 1)
-MaxRev(P, b) == LET S == {P[k].seq : k \in {j \in 1..Len(P) : b \in SeqToSet(P[j].rev)}} IN
-                IF S = {} THEN -1 ELSE Max(S)
+RevokedFrom(P, k, b) == \E j \in k..Len(P) : b \in SeqToSet(P[j].rev)
 RECURSIVE ApplyTx(_, _, _, _)
 ApplyTx(f, P, k, Bl) == IF k > Len(P) THEN f ELSE
    LET T == P[k]
        g == [b \in Bl |->
               LET I == {i \in 1..Len(T.tags) : T.tags[i].blk = b} IN
-              IF I # {} /\ T.seq > MaxRev(P, b) THEN T.tags[Max(I)].v ELSE f[b]]
+              IF I # {} /\ ~RevokedFrom(P, k, b) THEN T.tags[Max(I)].v ELSE f[b]]
    IN ApplyTx(g, P, k + 1, Bl)
 \* j.start = 0: the journal is empty whatever the log blocks hold
 FinalOf(f, h, j, Bl) == IF j.start = 0 THEN f ELSE ApplyTx(f, ValidPrefix(h), 1, Bl)
@@ -88,13 +129,15 @@ FinalOf(f, h, j, Bl) == IF j.start = 0 THEN f ELSE ApplyTx(f, ValidPrefix(h), 1,
 \* the replay stopped at, whose blocks may be in the ring) plus one ("Restart the log at the next transaction ID, thus
 \* invalidating any existing commit records in the log", jbd2_journal_recover).  A journal that was already empty
 \* (start = 0) is restarted one past the sequence it announced.  Both front-ends must leave exactly this superblock.
+\* (Offsets; on disk s_sequence = Conc(C, seq): the successor modulo 2^32.)
 NextTidOf(h, j)   == IF j.start = 0 THEN j.seq ELSE j.seq + Len(ValidPrefix(h))
 JsbAfterOf(h, j)  == [start |-> 0, seq |-> NextTidOf(h, j) + 1]
 
 \* ------------------------------------------------------------------------------------------------
-\* (3) recovery.c.  C = [L, csum, async]; lg = log; walk state w:
+\* (3) recovery.c.  C = [L, csum, async, tb]; lg = log; walk state w (cid, end.v, rev, failed are tid offsets):
 \*   pos next_log_block, cid next_commit_ID, need need_check_commit_time, last last_trans_commit_time,
-\*   end info->end_transaction, acc crc32_sum (as the sequence of blocks it covers), failed j_failed_commit,
+\*   end info->end_transaction as [set, v]: the field is 0 until the end of the log is known (set = FALSE), then the tid v;
+\*   acc crc32_sum (as the sequence of blocks it covers), failed j_failed_commit,
 \*   rev revoke table, out filesystem blocks, err, stop/reason, devs deviations taken
 V23(C) == C.csum \in {2, 3}
 Content(lg, p) == IF lg[p].t = "data" THEN <<lg[p].v, lg[p].esc>> ELSE <<GARBAGE, 0>>
@@ -112,7 +155,7 @@ ReplayTags(C, lg, b, w, np, i) ==
   IF i > Len(b.tags) THEN w ELSE
   LET tag == b.tags[i]
       p   == AdvL(C.L, np, i - 1)
-      revoked == tag.blk \in DOMAIN w.rev /\ w.cid <= w.rev[tag.blk]        \* !tid_gt(sequence, record->sequence)
+      revoked == tag.blk \in DOMAIN w.rev /\ ~TidGt(C, w.cid, w.rev[tag.blk])   \* !tid_gt(sequence, record->sequence)
       w1 == IF revoked THEN (IF TagOk(C, lg, tag, p) THEN w                         \* a revoked block is not even verified
                              ELSE [w EXCEPT !.devs = @ \cup {"ReplayPastBadTag"}])
             ELSE IF ~TagOk(C, lg, tag, p)
@@ -124,16 +167,16 @@ RECURSIVE Walk(_, _, _, _, _), BreakOut(_, _, _, _, _, _, _)
 \* `break` in case JBD2_COMMIT_BLOCK: meant to end the scan; literally it leaves the switch and the loop continues
 BreakOut(C, lg, pass, w, np, why, fuel) ==
   IF ~DevCommitBreakContinues THEN Stop(w, why)
-  ELSE LET again == lg[np].t \notin {"junk", "data"} /\ lg[np].seq = w.cid
+  ELSE LET again == lg[np].t \notin {"junk", "data"} /\ TidEq(C, lg[np].seq, w.cid)
        IN Walk(C, lg, pass, [w EXCEPT !.pos = np, !.reason = why, !.devs = IF again THEN @ \cup {"CommitBreakContinues"} ELSE @], fuel - 1)
 Walk(C, lg, pass, w, fuel) ==
   IF w.stop THEN w
   ELSE IF fuel = 0 THEN Fail(w, "HANG", "fuel")                                    \* the real loop would not terminate
-  ELSE IF pass # "scan" /\ w.cid >= w.end THEN Stop(w, "end")                      \* tid_geq(next_commit_ID, end_transaction)
+  ELSE IF pass # "scan" /\ TidGeq(C, w.cid, w.end.v) THEN Stop(w, "end")           \* tid_geq(next_commit_ID, end_transaction)
   ELSE
   LET b == lg[w.pos]  np == WrapL(C.L, w.pos + 1) IN
   IF b.t \in {"junk", "data"} THEN Stop(w, "nomagic")                              \* h_magic != JBD2_MAGIC_NUMBER
-  ELSE IF b.seq # w.cid THEN Stop(w, "sequence")
+  ELSE IF ~TidEq(C, b.seq, w.cid) THEN Stop(w, "sequence")                         \* sequence != next_commit_ID
   ELSE CASE b.t = "desc" ->
          LET bad == V23(C) /\ b.ok = 0
              n   == Len(b.tags)
@@ -144,7 +187,7 @@ Walk(C, lg, pass, w, fuel) ==
          ELSE LET w1 == IF bad THEN [w EXCEPT !.need = TRUE] ELSE w IN
               IF pass = "replay"
                 THEN Walk(C, lg, pass, [ReplayTags(C, lg, b, w1, np, 1) EXCEPT !.pos = AdvL(C.L, np, n)], fuel - 1)
-              ELSE IF pass = "scan" /\ C.csum = 1 /\ ~w1.need /\ w1.end = 0                     \* calc_chksums
+              ELSE IF pass = "scan" /\ C.csum = 1 /\ ~w1.need /\ ~w1.end.set                   \* calc_chksums (!info->end_transaction)
                 THEN Walk(C, lg, pass, [w1 EXCEPT !.pos = AdvL(C.L, np, n),
                                                  !.acc = @ \o <<b>> \o [i \in 1..n |-> lg[AdvL(C.L, np, i - 1)]]], fuel - 1)
               ELSE Walk(C, lg, pass, [w1 EXCEPT !.pos = AdvL(C.L, np, n)], fuel - 1)
@@ -154,16 +197,19 @@ Walk(C, lg, pass, w, fuel) ==
                 THEN (IF DevScanAbort THEN [Fail(w, "EFSBADCRC", "scan abort") EXCEPT !.devs = @ \cup {"ScanAbort"}]
                                       ELSE Stop(w, "bad csum before commit"))
                 ELSE Stop(w, "stale commit time")                                              \* ignore_crc_mismatch
-         ELSE IF pass = "scan" /\ C.csum = 1 /\ w.end # 0
-                THEN BreakOut(C, lg, pass, [w EXCEPT !.failed = w.end], np, "commit after failed commit", fuel)
+         ELSE IF pass = "scan" /\ C.csum = 1 /\ w.end.set                                      \* if (info->end_transaction)
+                THEN BreakOut(C, lg, pass, [w EXCEPT !.failed = w.end.v], np, "commit after failed commit", fuel)
          ELSE LET v1bad == pass = "scan" /\ C.csum = 1 /\ ~(b.hassum = 0 \/ b.sum = w.acc)
                   v23bad == pass = "scan" /\ V23(C) /\ b.ok = 0
                   w1 == IF pass = "scan" /\ C.csum = 1 /\ ~v1bad THEN [w EXCEPT !.acc = <<>>] ELSE w
               IN IF v1bad \/ v23bad THEN                                                       \* chksum_error:
                     IF b.time < w1.last THEN Stop(w1, "stale commit time")
-                    ELSE LET overw == w1.end # 0
-                             w2 == [w1 EXCEPT !.end = IF overw /\ ~DevAsyncLastBadCommit THEN @ ELSE w1.cid,
-                                              !.devs = IF overw /\ DevAsyncLastBadCommit THEN @ \cup {"AsyncLastBadCommit"} ELSE @]
+                    ELSE LET overw == w1.end.set
+                             \* end_transaction = next_commit_ID: the value 0 reads as "not known yet" afterwards
+                             lost  == DevTidZeroUnset /\ TidIsZero(C, w1.cid)
+                             w2 == [w1 EXCEPT !.end = IF overw /\ ~DevAsyncLastBadCommit THEN @ ELSE [set |-> ~lost, v |-> w1.cid],
+                                              !.devs = (IF overw /\ DevAsyncLastBadCommit THEN @ \cup {"AsyncLastBadCommit"} ELSE @)
+                                                       \cup (IF lost /\ C.async = 1 /\ ~(overw /\ ~DevAsyncLastBadCommit) THEN {"TidZeroUnset"} ELSE {})]
                          IN IF C.async = 0 THEN BreakOut(C, lg, pass, [w2 EXCEPT !.failed = w1.cid], np, "commit csum", fuel)
                             ELSE Walk(C, lg, pass, [w2 EXCEPT !.pos = np, !.cid = @ + 1, !.last = b.time], fuel - 1)
                  ELSE Walk(C, lg, pass, [w1 EXCEPT !.pos = np, !.cid = @ + 1,
@@ -173,36 +219,38 @@ Walk(C, lg, pass, w, fuel) ==
              bl == SeqToSet(b.blks)
              rv == IF pass # "revoke" THEN w1.rev
                    ELSE [x \in (DOMAIN w1.rev) \cup bl |->                                     \* jbd2_journal_set_revoke: keep the latest
-                          IF x \in bl THEN (IF x \in DOMAIN w1.rev /\ w1.rev[x] > w1.cid THEN w1.rev[x] ELSE w1.cid)
+                          IF x \in bl THEN (IF x \in DOMAIN w1.rev /\ ~TidGt(C, w1.cid, w1.rev[x]) THEN w1.rev[x] ELSE w1.cid)
                           ELSE w1.rev[x]]
          IN Walk(C, lg, pass, [w1 EXCEPT !.pos = np, !.rev = rv], fuel - 1)
        [] OTHER -> Stop(w, "blocktype")
 
 EmptyRev == [x \in {} |-> 0]
+EndUnknown == [set |-> FALSE, v |-> 0]
+EndKnown(t) == [set |-> TRUE, v |-> t]
 W0(j, rev, end, out) == [pos |-> j.start, cid |-> j.seq, need |-> FALSE, last |-> 0, end |-> end, acc |-> <<>>, failed |-> 0,
                          stop |-> FALSE, err |-> "", reason |-> "", rev |-> rev, out |-> out, devs |-> {}]
 \* "done:" bookkeeping of do_one_pass
-EndOfScan(w) == IF w.end = 0 THEN w.cid ELSE w.end
-PassErr(w, end) == IF w.err # "" THEN w.err ELSE IF w.cid # end THEN "EIO" ELSE ""
+EndOfScan(w) == IF w.end.set THEN w.end.v ELSE w.cid                   \* if (!info->end_transaction) info->end_transaction = next_commit_ID
+PassErr(C, w, end) == IF w.err # "" THEN w.err ELSE IF ~TidEq(C, w.cid, end) THEN "EIO" ELSE ""
 
 \* jbd2_journal_recover + the front-end's release:  [fs, err, end, devs, reason, jstart, nr]
 RecoverOf(C, lg, j, f) ==
   IF j.start = 0 THEN [fs |-> f, err |-> "", end |-> j.seq, devs |-> {}, reason |-> "empty", failed |-> 0]
   ELSE
   LET fuel == 3 * C.L + 3
-      scan == Walk(C, lg, "scan", W0(j, EmptyRev, 0, f), fuel)
+      scan == Walk(C, lg, "scan", W0(j, EmptyRev, EndUnknown, f), fuel)
       end  == EndOfScan(scan)
-      rvk  == Walk(C, lg, "revoke", W0(j, EmptyRev, end, f), fuel)
-      rerr == PassErr(rvk, end)
-      rep  == Walk(C, lg, "replay", W0(j, rvk.rev, end, f), fuel)
+      rvk  == Walk(C, lg, "revoke", W0(j, EmptyRev, EndKnown(end), f), fuel)
+      rerr == PassErr(C, rvk, end)
+      rep  == Walk(C, lg, "replay", W0(j, rvk.rev, EndKnown(end), f), fuel)
   IN IF scan.err # "" THEN [fs |-> f, err |-> scan.err, end |-> end, devs |-> scan.devs, reason |-> scan.reason, failed |-> scan.failed]
      ELSE IF rerr # "" THEN [fs |-> f, err |-> rerr, end |-> end, devs |-> scan.devs, reason |-> scan.reason, failed |-> scan.failed]
-     ELSE [fs |-> rep.out, err |-> PassErr(rep, end), end |-> end, devs |-> scan.devs \cup rep.devs, reason |-> scan.reason,
+     ELSE [fs |-> rep.out, err |-> PassErr(C, rep, end), end |-> end, devs |-> scan.devs \cup rep.devs, reason |-> scan.reason,
            failed |-> scan.failed]
 
 \* ------------------------------------------------------------------------------------------------
 \* (1) the generator
-CC == [L |-> L, csum |-> Csum, async |-> Async]
+CC == [L |-> L, csum |-> Csum, async |-> Async, tb |-> Zero32]
 Wrap(p) == WrapL(L, p)
 Adv(p, n) == AdvL(L, p, n)
 
@@ -305,16 +353,20 @@ Damage ==
 
 Final == FinalOf(fs, hist, jsb, DOMAIN fs)
 JsbAfter == JsbAfterOf(hist, jsb)
-Rec   == RecoverOf(jc, log, jsb, fs)
+\* recovery of the journal as it is concretised with tid base b
+RecAt(b) == RecoverOf([jc EXCEPT !.tb = b], log, jsb, fs)
+Rec   == RecAt(jc.tb)
 
-Recover ==
+RecoverAt(b) ==
    /\ phase \in {"run", "dmg"} /\ nr = 1
-   /\ fs' = Rec.fs
-   /\ jsb' = [start |-> 0, seq |-> IF Rec.err = "" THEN Rec.end + 1 ELSE jsb.seq]     \* *_journal_release(reset = 1)
+   /\ LET R == RecAt(b) IN
+        /\ fs' = R.fs
+        /\ jsb' = [start |-> 0, seq |-> IF R.err = "" THEN R.end + 1 ELSE jsb.seq]     \* *_journal_release(reset = 1): j_transaction_sequence = ++end_transaction
+        /\ res' = [err |-> R.err, end |-> R.end, devs |-> R.devs, reason |-> R.reason, final |-> Final, jsbafter |-> JsbAfter]
    /\ nr' = 0                                                                          \* *_clear_recover
-   /\ res' = [err |-> Rec.err, end |-> Rec.end, devs |-> Rec.devs, reason |-> Rec.reason, final |-> Final, jsbafter |-> JsbAfter]
    /\ phase' = "done"
    /\ UNCHANGED <<jc, log, head, nseq, hist, ver, ndmg>>
+Recover == RecoverAt(jc.tb)
 
 NoRes == [err |-> "", end |-> 0, devs |-> {}, reason |-> "", final |-> <<>>, jsbafter |-> [start |-> 0, seq |-> 0]]
 Init == /\ jc = CC /\ log = [p \in 1..L |-> Junk] /\ head = 1 /\ nseq = 1 /\ jsb = [start |-> 0, seq |-> 1] /\ nr = 0
@@ -335,9 +387,16 @@ ReplayExact == (phase = "done") => (fs = res.final /\ jsb = res.jsbafter /\ nr =
 \* With deviations enabled the property may fail only in behaviours that took a deviation:
 ReplayExactOrDev == (phase = "done") => (((fs = res.final /\ jsb = res.jsbafter) \/ res.devs # {}) /\ jsb.start = 0 /\ nr = 0)
 \* evaluated in every state, before Recover is taken
-ReplayExactAlways == (nr = 1) => ((Rec.fs = Final /\ (Rec.err = "" => Rec.end + 1 = JsbAfter.seq)) \/ Rec.devs # {})
+ReplayExactAt(b) == (nr = 1) => LET R == RecAt(b) IN ((R.fs = Final /\ (R.err = "" => R.end + 1 = JsbAfter.seq)) \/ R.devs # {})
+ReplayExactAlways == ReplayExactAt(jc.tb)
 \* the three passes end at the same transaction (no -EIO from "recovery pass ended at ...")
 PassesAgree == (nr = 1) => Rec.err \notin {"EIO", "HANG"}
+\* ReplayExact(OrDev) and PassesAgree of the state RecoverAt(b) leads to, evaluated in the state before: the blocks and the
+\* journal superblock the replay leaves are Final and JsbAfter (or a named deviation was taken), whatever the tid base b
+RecoverExactAt(b) == (nr = 1 /\ phase \in {"run", "dmg"}) =>
+   LET R == RecAt(b) IN /\ R.err \notin {"EIO", "HANG"}
+                        /\ \/ R.fs = Final /\ (IF R.err = "" THEN R.end + 1 ELSE jsb.seq) = JsbAfter.seq
+                           \/ R.devs # {}
 \* ------------------------------------------------------------------------------------------------
 \* Soundness of the ground truth (checked on generator states and on every journal loaded from a trace):
 \* "valid" is exactly "every block of the transaction is in the log as written", and every block that differs
